@@ -6,6 +6,7 @@ import os
 
 from . import common
 from . import pyexpr2coq as T
+from . import c04_stmt
 from .common import cfloat, cnat, cbool, clist, copt, cpair
 
 FIT = "autofit/non_linear/fitness.py"
@@ -286,12 +287,25 @@ def regenerate(repo=None):
     text += ";\n".join('  ("%s"%%string, (%s, %s, %s, %s))' % (f, cbool(ps), cbool(like), cfloat(res), cbool(chi2))
                        for f, ps, like, res, chi2 in w)
     text += "\n ].\n"
+    # statement-level translation of the two method bodies (harness/vcheck/c04_stmt.py)
+    text += ("\n(* ====== STATEMENT-LEVEL TRANSLATION of Fitness.__call__ and FitnessPySwarms.__call__ (c04_stmt.py) ======\n"
+             "   whole method bodies in continuation-passing style over coq/C04/PyStmt.v; everything not interpreted is a\n"
+             "   named Section variable; Proofs.v proves these definitions equal to the hand-written model. *)\n"
+             "From PAFC04 Require Import PyStmt.\nLocal Open Scope list_scope.\nLocal Open Scope type_scope.\n")
+    stmt_reports = {}
+    for name, file, qual, pty in (("Fitness_call", FIT, "Fitness.__call__", "Obj"),
+                                  ("FitnessPySwarms_call", PS, "FitnessPySwarms.__call__", "Params")):
+        sec, rep = c04_stmt.translate(repo, name, file, qual, pty, infos, SPECS)
+        text += "\n(* %s:%s\n%s *)\n" % (file, qual, "\n".join("     " + x.replace("(*", "( *").replace("*)", "* )") for x in rep["statements"]))
+        text += sec + "\n"
+        stmt_reports[name] = rep
     old = open(GEN).read() if os.path.exists(GEN) else None
     if old != text:
         with open(GEN, "w") as f:
             f.write(text)
     infos["__traits__"] = tr
     infos["__wiring__"] = w
+    infos["__stmt__"] = stmt_reports
     return infos
 
 
@@ -742,6 +756,25 @@ def expected(c, lp, skip_limits=False):
 
 BIG = 1e99
 
+# which path through the translated method body an evaluation takes (distribution printed with the evidence)
+_EXITS = {"esc": "instance_from_vector raises AssertionError: not caught, leaves the call",
+          "limit": "instance_from_vector raises PriorLimitException: except FitException",
+          "assert": "instance_from_vector raises FitException (assertion): except FitException",
+          "fitexc": "likelihood raises FitException: except FitException",
+          "nan": "np.isnan(log_likelihood)", "nan-posterior": "np.isnan(figure_of_merit) of a nan posterior"}
+
+
+def source_path(c, kind):
+    fl = c["flags"]
+    if c["ps"]:
+        if kind == "ok":
+            return "FitnessPySwarms.__call__: loop body falls through; elif store_history=%s" % fl["store"]
+        return "FitnessPySwarms.__call__: %s%s" % (_EXITS[kind], "" if kind in ("esc", "nan-posterior", "nan") else " -> np.nan -> isnan -> -2*resample")
+    if kind == "ok":
+        return "Fitness.__call__: fom_is_log_likelihood=%s store_history=%s convert_to_chi_squared=%s -> return figure_of_merit" % (
+            fl["like"], fl["store"], fl["chi2"])
+    return "Fitness.__call__: %s%s" % (_EXITS[kind], "" if kind == "esc" else " -> return resample_figure_of_merit")
+
 
 def wired_label(c):
     f = c["wired"]
@@ -934,6 +967,9 @@ def run(ctx):
         "Coq 8.16.1 kernel incl. vm_compute; primitive floats (PrimFloat, Uint63) are kernel primitives",
         "harness/vcheck/pyexpr2coq.py + c04.py:traits regenerating coq/C04/Gen.v (leaf formulas, the five implementation traits, the Fitness wiring of every search; fail closed on any other use of the history lists) "
         "from /repo on every run, fail-closed",
+        "harness/vcheck/c04_stmt.py: the statement-level translator (Python ast -> continuation-passing Gallina over coq/C04/PyStmt.v) and "
+        "the instantiation table of its Section variables in coq/C04/GenModel.v; its semantics is additionally run against the real code "
+        "(check_case_gen: the translated functions on every generated case, bit for bit)",
         "correspondence harness c04.py / impl/c04_impl.py: abstraction of a composed model into (limits in id order, slots, assertions); "
         "the abstraction is cross-checked against priors_ordered_by_id / prior_count of the live model",
         "prior.log_prior_from_value is an oracle table computed on the prior objects (its values are C02/C17 matter; C04 is about "
@@ -957,19 +993,32 @@ def run(ctx):
         "which searches minimise and which work in posterior space is knowledge about the third-party samplers (coq/C04/Wiring.v)",
         "C04_deterministic presupposes a likelihood that is a function of the instance returning a fresh value; a likelihood that hands "
         "out one cached mutable array would alias the recorded likelihoods (user-side aliasing, not generated)",
-        "C04_fom / C04_resample / C04_no_escape / C04_success_iff are characterisations of the hand-written control flow of the model "
-        "(one-step unfoldings); what ties that control flow to the code is the correspondence, the content proved beyond unfolding is "
-        "C04_fom_meaning, C04_history*, C04_pyswarms_*, C04_constructor*, C04_wiring_*",
+        "the control flow of the model is tied to the source by proof: the bodies of Fitness.__call__ and FitnessPySwarms.__call__ are "
+        "translated statement by statement (c04_stmt.py -> Gen.Fitness_call / Gen.FitnessPySwarms_call, regenerated every run, fail closed) "
+        "and proved equal to the hand-written step / ps_batch for all inputs (C04_source_call, C04_source_pyswarms_call, C04_source_run); "
+        "C04_fom / C04_resample / C04_no_escape / C04_success_iff (one-step unfoldings of the hand model) are restated on the translated "
+        "function as C04_source_fom / C04_source_history / C04_source_pyswarms_run",
+        "abstracted in the statement-level translation, each a NAMED Section variable of Gen.v instantiated in GenModel.v: "
+        "self.model.instance_from_vector, self.log_likelihood_function / self.analysis.log_likelihood_function (property + jax jit), "
+        "self.model.log_prior_list_from_vector (assumed not to raise), builtin sum, np.isnan, np.nan (any value with isnan = true), "
+        "copy.copy, np.asarray (identity), the @timeout(timeout_seconds) decorator (identity: lh_timeout_seconds is empty), the "
+        "single-vector idiom `if isinstance(parameters[0], float): parameters = [parameters]` (batch_of_parameters), the exception "
+        "class test of `except exc.FitException`, UnboundLocalError as an exception value; object identity of numbers is not "
+        "modelled (augmented assignment is refused)",
     ]
     try:
         infos = regenerate()
         tr = infos.pop("__traits__")
         WIRING[0] = infos.pop("__wiring__")
+        stmt_reports = infos.pop("__stmt__")
         CTOR_VIA_CALL[0] = tr["impl_ctor_via_call"]
         ctx.notes["wiring"] = [list(w) for w in WIRING[0]]
         ctx.translated = {k: {"source": v["source"], "line": v["line"]} for k, v in infos.items()}
         ctx.translated["traits"] = tr
-        ctx.obligation("translator:Gen.v", "translator", True, "%d expressions, traits %s" % (len(infos), tr))
+        ctx.translated["statement_level"] = stmt_reports
+        ctx.obligation("translator:Gen.v", "translator", True, "%d expressions, traits %s; statement-level: %s" % (
+            len(infos), tr, ", ".join("%s (%d statements, %d named section variables)" % (k, len(v["statements"]), len(v["section_variables"]))
+                                      for k, v in sorted(stmt_reports.items()))))
         translated = True
     except T.TranslationError as e:
         ctx.obligation("translator:Gen.v", "translator", False, str(e))
@@ -1022,6 +1071,7 @@ def run(ctx):
                                         "hist" if fl["store"] else "nohist"))
         for k in exp["kinds"]:
             ctx.hist("outcome", k)
+            ctx.hist("translated-source-path", source_path(c, k))
         ctx.hist("priors", len(c["model"]["priors"]))
         ctx.hist("ops", len(c["ops"]))
         ctx.hist("return-type", c["script"]["ret"])
@@ -1048,17 +1098,38 @@ def run(ctx):
             coq_idx.append(i)
         if i % 61 == 0:
             ctx.sample({"case": c, "observed": {"out": r["out"], "hist_p": r["hist_p"], "hist_l": r["hist_l"]}}, limit=5)
+    def _vo(name):
+        f = os.path.join(common.COQ, "C04", name + ".vo")
+        return os.path.getmtime(f) if os.path.exists(f) else None
+    # GenModel.vo is usable only when it was compiled against the Gen.vo / Model.vo now on disk (it is stale when the
+    # regenerated Gen.v no longer offers a Section variable GenModel.v instantiates: then only the hand model is run)
+    have_gen = _vo("GenModel") is not None and _vo("Gen") is not None and _vo("Model") is not None \
+        and _vo("GenModel") >= _vo("Gen") and _vo("GenModel") >= _vo("Model")
     if os.path.exists(os.path.join(common.COQ, "C04", "Model.vo")):
-        hdr = ctx.header(["Common.PyFloat", "Gen", "Model"])
-        bad, log = ctx.eval_cases(hdr, "case", "check_case", coq_cases, shard=60 if ctx.tier != "thorough" else 250)
+        # both the hand-written model (check_case) and the statement-level translation of the source
+        # (check_case_gen: Gen.Fitness_call / Gen.FitnessPySwarms_call run on the same case) against the observables
+        hdr = ctx.header(["Common.PyFloat", "Gen", "Model"] + (["GenModel"] if have_gen else []))
+        if not have_gen:
+            ctx.obligation("correspondence:translated-source", "correspondence", False, "GenModel.vo not built")
+        bad, log = ctx.eval_cases(hdr, "case", "check_case_both" if have_gen else "check_case", coq_cases,
+                                  shard=60 if ctx.tier != "thorough" else 250)
+        ctx.notes["correspondence_runs"] = "hand-written model and translated source (check_case_both)" if have_gen else "hand-written model only"
         if bad:
             for b in bad[:5]:
                 i = coq_idx[b]
                 fails = verdicts.get(i) or []
                 classes = sorted({x for _, cl in fails for x in cl}) if fails and all(cl for _, cl in fails) else []
                 shown = ctx.show(hdr, "model_run (%s)" % coq_cases[b], tag="show%d" % b)
-                ctx.failure("correspondence", "model and implementation disagree (fitness object: %s)" % ("pyswarms" if cases[i]["ps"] else "plain"),
-                            cases[i], classes=classes, impl=results[i]["ok"], model=shown[:3000],
+                which = ""
+                if have_gen:
+                    w = ctx.show(hdr, "(check_case (%s), check_case_gen (%s))" % (coq_cases[b], coq_cases[b]), tag="which%d" % b)
+                    hand_ok, gen_ok = ("(true," in w.replace(" ", "")), (",true)" in w.replace(" ", ""))
+                    which = {(False, True): "; the hand-written model disagrees, the function translated from the source agrees with the running code",
+                             (True, False): "; the function translated from the source disagrees (the hand-written model agrees): translator semantics or an abstracted external",
+                             (False, False): "; both the hand-written model and the function translated from the source disagree"}.get((hand_ok, gen_ok), "")
+                    shown = shown[:1800] + "\n--- translated source: ---\n" + ctx.show(hdr, "model_run_gen (%s)" % coq_cases[b], tag="showg%d" % b)[:1800]
+                ctx.failure("correspondence", "model and implementation disagree (fitness object: %s)%s" % ("pyswarms" if cases[i]["ps"] else "plain", which),
+                            cases[i], classes=classes, impl=results[i]["ok"], model=shown[:4000],
                             broken={"kind": "correspondence", "name": "C04.check_case"}, found_input=bool(fails))
     else:
         ctx.obligation("correspondence:cases", "correspondence", False, "Model.vo not built")
@@ -1074,12 +1145,20 @@ MANIFEST = {
             "(proof terms are eq_refl on the regenerated constants, a regression breaks the build) --, constructor of a resumed fit, "
             "pyswarms against the plain fitness (agreement for the wired flags, divergences stated as refuted), wiring of all searches "
             "(flags; designated resample value on the bad side of the optimisation direction, refuted for BFGS/LBFGS), plus a "
-            "bit-exact vm_compute correspondence of the model with the running code on generated sequences and a direct property "
-            "oracle on every case",
+            "bit-exact vm_compute correspondence of the model AND of the statement-level translation of the source with the running code "
+            "on generated sequences and a direct property oracle on every case. The bodies of Fitness.__call__ and "
+            "FitnessPySwarms.__call__ (try/except FitException, early returns, if/elif/else over the configuration attributes, np.isnan "
+            "tests, history appends, the particle loop) are translated statement by statement into executable Gallina on every run "
+            "(fail closed) and PROVED equal to the hand-written model for all inputs (C04_source_call, C04_source_pyswarms_call, "
+            "C04_source_run), so every theorem speaks about the function read off the source",
     "note": "Trusted: Coq kernel + vm_compute, primitive floats, the translator, the harness abstraction of composed models "
             "(cross-checked against the live model), prior.log_prior_from_value and builtin sum() as oracle tables, which third-party "
-            "samplers minimise / work in posterior space. C04_fom, C04_resample, C04_no_escape, C04_success_iff characterise the "
-            "hand-written control flow of the model (tied to the code by correspondence only). USE_JAX is exercised by setting "
+            "samplers minimise / work in posterior space, the statement-level translator c04_stmt.py and the instantiation of "
+            "its named Section variables (GenModel.v). Control flow of both __call__ bodies is translated and proved equal to the model; "
+            "still abstracted there (named Section variables, not modelled further): instance_from_vector, the likelihood callable "
+            "(property + jax jit), log_prior_list_from_vector (assumed total), sum, np.isnan, np.nan, copy.copy, np.asarray, the "
+            "@timeout decorator (identity), the single-vector idiom of FitnessPySwarms (isinstance(parameters[0], float)), exception "
+            "class matching. Fitness.__init__ / check_log_likelihood remain trait-read only. USE_JAX is exercised by setting "
             "autofit.jax_wrapper.use_jax (jax itself is not installed). Not covered: timeout decorator, jax jit, non-FitException "
             "errors, non-float vectors for FitnessPySwarms, likelihoods returning a shared mutable array, instance construction "
             "below the attribute-slot level (C01), compound-prior assertions (C03).",
